@@ -499,3 +499,32 @@ class PathResult:
     def pathid(self):
         s = ''.join('T' if d else 'F' for d in self.ctx.taken)
         return s or '-'
+
+
+def run_paths(src, module, name, make_args, namespace, max_paths=64, transform=None):
+    """enumerate the paths of one real function on arguments built by make_args() (called once per
+    path inside a fresh context); returns [(ctx, args, outcome)]"""
+    fn = src.compile(module, name, namespace, transform=transform)
+    work = [[]]
+    out = []
+    while work:
+        dec = work.pop()
+        c = Ctx(dec)
+        set_ctx(c)
+        try:
+            args = make_args(c)
+            try:
+                res = fn(*args)
+                outcome = ('return', res)
+            except PathEnd:
+                work.extend(c.pending)
+                continue
+            except (ValueError, AssertionError, ZeroDivisionError, IndexError, KeyError, TypeError) as e:
+                outcome = ('raise', e)
+            work.extend(c.pending)
+            out.append((c, args, outcome))
+            if len(out) > max_paths:
+                raise OutsideSubset('more than %d paths' % max_paths)
+        finally:
+            set_ctx(None)
+    return out
